@@ -151,7 +151,7 @@ func (e *Exec) callFunction(fr *Frame, ins ssa.Instruction, fn *ssa.Function, ar
 			// closures: free variables are visible to the contract by name
 			for i, fv := range fn.FreeVars {
 				names = append(names, fv.Name())
-				all = append(all, binds[i])
+				all = append(all, e.fvVal(fv, binds[i]))
 			}
 		}
 		return e.applyContract(fr, ins, ctr, names, all, resT, st, g, isGo)
@@ -214,6 +214,47 @@ func (e *Exec) applyContract(fr *Frame, ins ssa.Instruction, ctr *Contract, name
 	}
 	pre := st.clone()
 	env.st, env.old = pre, pre
+	for _, c := range ctr.PanicsUnless {
+		e.safety(fr, ins, g, e.evalBool(c, env), "callee-panic:"+c.Label)
+	}
+	if ctr.Applies != "" {
+		// higher-order extern (db.Update(fn), item.Value(fn), ...): the closure passed for this parameter is run once;
+		// its own contract (verified separately on its body) is applied here
+		cv, ok := env.vars[ctr.Applies]
+		if !ok || cv.Clo == nil {
+			e.unsupported("%s applies parameter %q, which is not a statically known closure here", ctr.Key, ctr.Applies)
+		}
+		cfn, ok := cv.Clo.Fn.(*ssa.Function)
+		if !ok {
+			e.unsupported("%s applies a builtin", ctr.Key)
+		}
+		cctr := e.P.Spec.Contracts[FuncKey(cfn)]
+		if cctr == nil {
+			e.unsupported("closure %s (applied by %s) has no contract", FuncKey(cfn), ctr.Key)
+		}
+		var cnames []string
+		var cargs []Val
+		for i, p := range cfn.Params {
+			a := e.freshTyped(fr.prefix+valueName(ins)+"$cbarg", p.Type(), st)
+			cnames = append(cnames, p.Name())
+			cargs = append(cargs, a)
+			env.vars[fmt.Sprintf("arg%d", i)] = a
+		}
+		for i, fv := range cfn.FreeVars {
+			cnames = append(cnames, fv.Name())
+			cargs = append(cargs, e.fvVal(fv, cv.Clo.Bindings[i]))
+		}
+		for _, w := range ctr.With {
+			e.assume(g, e.evalBool(w, env))
+		}
+		var cresT types.Type = cfn.Signature.Results()
+		if cfn.Signature.Results().Len() == 1 {
+			cresT = cfn.Signature.Results().At(0).Type()
+		}
+		applied := e.applyContract(fr, ins, cctr, cnames, cargs, cresT, st, g, false)
+		env.vars["applied"] = applied
+		env.st = st.clone()
+	}
 	for _, c := range ctr.Requires {
 		t := e.evalBool(c, env)
 		e.Out.AddObl(&Obligation{Name: fmt.Sprintf("%s/call:%s/pre:%s", FuncKey(fr.fn), site, c.Label), Func: FuncKey(fr.fn), Kind: "pre", Label: c.Label, Text: c.Text, Src: c.Src,
@@ -241,6 +282,23 @@ func (e *Exec) applyContract(fr *Frame, ins ssa.Instruction, ctr *Contract, name
 		env2 := &Env{e: e, vars: env.vars, st: post, old: pre, fr: fr, result: &res}
 		for _, c := range ctr.Ensures {
 			e.assume(g, e.evalBool(c, env2))
+		}
+	}
+	if ctr.Flags["txn"] && res.T != "" {
+		// transactional extern: a non-nil result means nothing was committed to the abstract store
+		errT := res.T
+		if res.Tup != nil {
+			errT = res.Tup[len(res.Tup)-1].T
+		}
+		if g, ok := e.P.Spec.Ghosts["db"]; ok {
+			_, comps, _, _ := e.ghostComps(g)
+			for _, c := range comps {
+				cur := e.get(post, c.name, c.sort)
+				old := e.get(pre, c.name, c.sort)
+				if cur != old {
+					e.set(post, c.name, c.sort, Ite(Eq(errT, "anynil"), cur, old))
+				}
+			}
 		}
 	}
 	// call-site hints of the function under verification (proof decomposition: proved here, then assumed)
@@ -446,4 +504,20 @@ func (e *Exec) doAppend(fr *Frame, ins ssa.Instruction, c *ssa.CallCommon, args 
 	e.recordWrite(h, "")
 	res := e.Out.Define(name, SSlice, "(mk_slice "+base+" "+off+" "+newLen+" "+Ite(fits, ""+e.scap(s.T)+"", newCap)+")")
 	return Val{T: res, S: SSlice, Ty: c.Args[0].Type()}
+}
+
+// fvVal views the binding of a closure's free variable (a pointer to the captured variable) as the address of that
+// variable, so that contracts can name the captured variable itself.
+func (e *Exec) fvVal(fv *ssa.FreeVar, v Val) Val {
+	if v.Addr != nil {
+		return v
+	}
+	pt, ok := fv.Type().(*types.Pointer)
+	if !ok {
+		return v
+	}
+	if _, isStruct := pt.Elem().Underlying().(*types.Struct); isStruct {
+		return v
+	}
+	return Val{Addr: e.ptrAddr(v, fv.Type()), Ty: fv.Type()}
 }
